@@ -72,3 +72,33 @@ def run(chk):
            "eta_to_lam(lam_to_eta(lam, mu), mu) == lam", node=e2l, value=sp.sstr(sp.cancel(comp1))[:120])
     chk.ob("C12.R5", f"{REL}:NonnegMean.eta_to_lam", "lam_to_eta.eta_to_lam==id", is_zero(comp2 - eta),
            "lam_to_eta(eta_to_lam(eta, mu), mu) == eta", node=e2l, value=sp.sstr(sp.cancel(comp2))[:120])
+
+    r6_dtype(chk)
+
+
+
+def r6_dtype(chk):
+    """The formulas are over the reals; the code computes them in floating point only if no intermediate array silently takes the
+    integer dtype of the sample (0/1 votes are a natural input).  `np.full_like(a, v)` / `np.empty_like(a)` without `dtype=` build
+    an array of a's dtype: a fill value of 0.5 becomes 0 for an integer sample.  (`v * np.ones_like(a)` is fine: the product is
+    promoted.)"""
+    import ast as _ast
+    from .. import nnm as _nnm
+    from ..astutil import parent as _parent
+    mod = chk.idx.module(_nnm.REL)
+    n_fn = 0
+    for q, fd in mod.defs.items():
+        if not isinstance(fd, _ast.FunctionDef):
+            continue
+        n_fn += 1
+        bad = []
+        for c in _ast.walk(fd):
+            if isinstance(c, _ast.Call) and norm(c.func) in ("np.full_like", "numpy.full_like", "np.empty_like", "numpy.empty_like") \
+                    and not any(k.arg == "dtype" for k in c.keywords):
+                bad.append(norm(c)[:80])
+        if bad or q.split(".")[-1] in set(_nnm.registry(chk.idx)["estim"]) | set(_nnm.registry(chk.idx)["bet"]) | set(_nnm.registry(chk.idx)["tests"]) | {"sjm", "welford_mean_var"}:
+            chk.ob("C12.R6", f"{_nnm.REL}:{q}", "no-array-inherits-the-sample's-dtype", not bad,
+                   "no array is created with np.full_like / np.empty_like of a data-shaped array without an explicit dtype (its "
+                   "contents would be cast to the sample's dtype, truncating 0.5 to 0 for integer votes)", node=fd, strength="N",
+                   calls=bad)
+    chk.need("C12.R6", n_fn, 10, "functions of NonnegMean.py")
